@@ -4,7 +4,7 @@
 # VERIF_REPO, prints CAUGHT/MISSED, removes the worktree.  Never touches /repo's working tree.
 set -u
 MD=$(realpath "$1"); TIER=${2:-quick}
-PID=$(python3 -c "import json,sys; print(json.load(open('$MD/meta.json'))['property'])")
+PID=${3:-$(python3 -c "import json,sys; print(json.load(open('$MD/meta.json'))['property'])")}
 WT=$(mktemp -d /tmp/mutrun.XXXXXX)
 git -C /repo worktree add -q --detach "$WT" HEAD || exit 2
 cleanup() { git -C /repo worktree remove --force "$WT" 2>/dev/null; rm -rf "$WT"; }
